@@ -142,7 +142,7 @@ def shards(tier, seed):
     for i, nit in enumerate(("fraction", "float") if q else ("fraction", "fraction", "float")):
         slow = 2 if nit == "fraction" else 1         # mip on Fraction coefficients is ~5x slower
         out.append({"kind": "auto", "nit": nit, "name": f"auto-{nit}-{i}",
-                    "n": 900 if q else 28000, "npref": (60 if q else 1200) // slow})
+                    "n": 900 if q else 28000, "npref": (110 if q else 2000) // slow})
     for i, nit in enumerate(("fraction", "float") if q else ("fraction", "fraction", "float")):
         slow = 3 if nit == "fraction" else 1
         out.append({"kind": "preferred", "nit": nit, "name": f"preferred-{nit}-{i}",
